@@ -2,7 +2,19 @@
 
 HOOK_COMMITS = []
 
-CHECKS = {}
+STORE_NOTE = ("real nostr_relay code from /repo's working tree; SQLite for real behind a same-thread connection shim; LMDB replaced by "
+              "an in-memory double (py-lmdb and msgpack C extension are not installed; pure-python msgpack from pip is used); "
+              "sequential default schedule; bounds as stated in the evidence file")
+
+CHECKS = {
+    "C09": dict(
+        level="model_checking", design_ref="DESIGN.md section 4 C09, section 2.7",
+        technique="explicit-state BFS over the real storage (state = store dump) with frame-condition oracle",
+        text="Every store state reachable by <= depth submissions over two collision-rich universes of replaceable events is enumerated on "
+             "both backends through the real websocket EVENT path; each transition is judged by a frame condition relating pre-state, event "
+             "and post-state (older versions gone, nothing else removed, newest of every address kept). Exhaustive within the universes and depth.",
+        note=STORE_NOTE),
+}
 
 _ALL = ["C%02d" % i for i in range(1, 21)]
 
